@@ -375,6 +375,10 @@ impl RemoteClient {
                 0
             };
             let end: usize = min(remaining_len + start as u64, term_data.len() as u64) as usize;
+            #[cfg(xet_verif)]
+            utils::verif::emit("RcSeqWrite", || {
+                format!("\"idx\":{term_idx},\"start\":{start},\"end\":{end},\"tlen\":{}", term_data.len())
+            });
             writer.write_all(&term_data[start..end])?;
             let len_written = (end - start) as u64;
             remaining_len -= len_written;
@@ -426,6 +430,10 @@ impl RemoteClient {
             bytes_written += len;
             remaining -= len;
 
+            #[cfg(xet_verif)]
+            utils::verif::emit("RcParPlan", || {
+                format!("\"idx\":{idx},\"start\":{start},\"end\":{end},\"off\":{file_offset}")
+            });
             let task = task_info.clone();
             task.write_term(term, start..end, file_offset)
         });
@@ -496,6 +504,8 @@ impl TermWriteTask {
         // write the term
         let mut writer = self.output.get_writer_at(file_offset)?;
         writer.write_all(&term_data[term_range])?;
+        #[cfg(xet_verif)]
+        utils::verif::emit("RcParWrite", || format!("\"off\":{file_offset},\"len\":{len}"));
         writer.flush()?;
         Ok(len)
     }
@@ -532,6 +542,10 @@ pub(crate) async fn get_one_term(
             hash: term.hash.into(),
         };
         if let Ok(Some(cached)) = cache.get(&key, &term.range).log_error("cache error") {
+            #[cfg(xet_verif)]
+            utils::verif::emit("RcHit", || {
+                format!("\"x\":\"{}\",\"lo\":{},\"hi\":{},\"len\":{}", term.hash, term.range.start, term.range.end, cached.data.len())
+            });
             return Ok(cached.data.to_vec());
         }
     }
@@ -556,6 +570,21 @@ pub(crate) async fn get_one_term(
         .work_dump_caller_info(&fetch_term.url, download_range(http_client, fetch_term.clone(), term.hash))
         .await?;
 
+    #[cfg(xet_verif)]
+    utils::verif::emit("RcFetched", || {
+        format!(
+            "\"x\":\"{}\",\"lo\":{},\"hi\":{},\"flo\":{},\"fhi\":{},\"ulo\":{},\"uhi\":{},\"len\":{},\"noffs\":{}",
+            term.hash,
+            term.range.start,
+            term.range.end,
+            fetch_term.range.start,
+            fetch_term.range.end,
+            fetch_term.url_range.start,
+            fetch_term.url_range.end,
+            data.len(),
+            chunk_byte_indices.len()
+        )
+    });
     // now write it to cache, the whole fetched term
     if let Some(cache) = chunk_cache {
         let key = Key {
@@ -590,6 +619,10 @@ pub(crate) async fn get_one_term(
         )));
     }
 
+    #[cfg(xet_verif)]
+    utils::verif::emit("RcTerm", || {
+        format!("\"x\":\"{}\",\"lo\":{},\"hi\":{},\"len\":{}", term.hash, term.range.start, term.range.end, data.len())
+    });
     Ok(data)
 }
 
